@@ -306,3 +306,13 @@ Theorem C08_stdv_zero_mean_legacy_refuted :
   is_nan (stdv_legacy 0 0 0 3) = true /\ hundredths (stdv_of 0 0 0 3) = Some 0%Z /\ ok_stdv 0 [0; 0; 0]%N = true.
 Proof. exact stdv_zero_mean_legacy_refuted. Qed.
 Print Assumptions C08_stdv_zero_mean_legacy_refuted.
+
+(* ------------------------------------------------------------------------------------------------
+   Still present in the code (known finding lost-in-inherited-data): outside the guards of C08_lost_markers_*
+   (data starts at depth 0) and C08_inherited_* (no LOST marker): a marker in the data of a forked child counts
+   the innermost open call twice (leaf: Calls 2, Total 2 ns instead of 1 and 300 ns) *)
+Theorem C08_lost_in_inherited_refuted :
+  map (fun n => (n_name n, n_call n, sum (n_total n), sum (n_self n))) (report lost_inherited_case)
+  = [(1, 1, 690, 190); (2, 1, 500, 498); (3, 2, 2, 2); (4, 1, 0, 0)].
+Proof. exact lost_in_inherited_refuted. Qed.
+Print Assumptions C08_lost_in_inherited_refuted.
